@@ -149,3 +149,12 @@ for arch, f, hs in [("arm", "arm.rs", ["c11_bcj_arm_group", "c11_bcj_arm_short"]
       kind="bounded", bound="buffers of 3..19 arbitrary bytes (1-3 instruction groups) at every aligned stream position < 2^62",
       functions=[("src/filter/bcj/" + f, fn)],
       contract="forall bytes, forall aligned pos < 2^62: no panic; encoder and decoder convert the same prefix r, pos += r, bytes >= r untouched; decode(encode(x)) = x; only a tail shorter than one group stays unconverted")
+
+U(id="C11.loop.arm", props=["C11", "C06", "C07"], backend="verus", verus="bcj_arm.json", harnesses=[], stubs=[],
+  functions=[("src/filter/bcj/arm.rs", "arm_code")],
+  contract="for EVERY buffer length: no index/overflow error, terminates, returns r = 4*floor(len/4) (0 if len<4), pos += r, only bytes of converted groups change (opcode byte and tail untouched), is_encoder/prev_mask unchanged")
+
+for arch, fl, fn in [("ppc", "ppc.rs", "ppc_code"), ("sparc", "sparc.rs", "sparc_code"), ("arm64", "arm.rs", "arm64_code"), ("thumb", "arm.rs", "arm_thumb_code")]:
+    U(id="C11.loop." + arch, props=["C11", "C06", "C07"], backend="verus", verus="bcj_%s.json" % arch, harnesses=[], stubs=[],
+      functions=[("src/filter/bcj/" + fl, fn)],
+      contract="for EVERY buffer length: no index/overflow error, terminates, returns the converted prefix r (multiple of the stride, r+4 > len, 0 if len<4), pos += r, bytes >= r untouched, is_encoder/prev_mask unchanged")
